@@ -148,4 +148,10 @@ func (c *Client) writeLoop()
 func (b *Broker) handleConn(conn net.Conn)
   flag frame=unchecked
   requires b != nil && b.spec != nil && b.sessMgr != nil && b.topicMgr != nil && conn != nil
+
+// ---- C13 / C09: the MQTT limiters are always built over a positive refresh period ----
+func newLimiter(spec *RateLimit) (l *Limiter)
+  flag allocates
+  flag frame=unchecked
+  ensures l != nil
 @*/
